@@ -1,5 +1,6 @@
 import NbioVerif.Model.Pipeline
 import NbioVerif.Model.ClientFifo
+import NbioVerif.Model.ClientPool
 import NbioVerif.DrvCommon
 /-! pipedrv: predicts, from the request history of each connection, what the clients of harness `he2e`
 observe (C10).  Server side = `Pipeline` (run under the schedule given on the K line, then drained);
@@ -232,6 +233,49 @@ def parseQ (ws : List String) : Option Q := do
 structure DS where
   iomod : String := ""
   cur : Option H := none
+  pool : Option (Nat × ClientPool.St) := none   -- a `C pool` case: (max, state)
+
+def showNats (xs : List Nat) : String := String.intercalate "," ("-" :: xs.map toString)
+
+/-- one op of a pool case on the model `ClientPool` -/
+def poolOp (max : Nat) (s : ClientPool.St) (ws : List String) : String × ClientPool.St :=
+  match ws with
+  | ["G"] =>
+    let r := s.nreq
+    match ClientPool.step max s .get with
+    | some s' =>
+      match s'.assigned.getLast? with
+      | some (r', c) =>
+        if r' == r && s'.assigned.length == s.assigned.length + 1 then
+          (s!"got c={c} new={if c == s.count then 1 else 0} reset={if s'.redials.contains r then 1 else 0}", s')
+        else (s!"blocked r={r}", s')
+      | none => (s!"blocked r={r}", s')
+    | none => ("bad-op", s)
+  | ["R", c] =>
+    match c.toNat? with
+    | some c =>
+      match ClientPool.step max s (.release c) with
+      | some s' =>
+        if s'.assigned.length == s.assigned.length + 1 then
+          match s'.assigned.getLast? with
+          | some (r, c') => (s!"ok handoff={r}:{c'}:{if s'.redials.contains r then 1 else 0}", s')
+          | none => ("bad-op", s)
+        else ("ok handoff=-", s')
+      | none => ("bad-release", s)
+    | none => ("bad-op", s)
+  | ["X", c] =>
+    match c.toNat? with
+    | some c =>
+      if c < s.count then ("ok", (ClientPool.step max s (.connClosed c)).getD s) else ("bad-conn", s)
+    | none => ("bad-op", s)
+  | ["T"] =>
+    match s.waiting with
+    | r :: _ => (s!"timeout r={r}", (ClientPool.step max s (.timeout r)).getD s)
+    | [] => ("none", s)
+  | ["S"] =>
+    let busy := s.busy.toArray.qsort (· < ·) |>.toList
+    (s!"state count={s.count} idle={s.idle.length} busy={showNats busy} waiting={String.intercalate "," (s.waiting.map toString ++ ["-"])}", s)
+  | _ => ("bad-op", s)
 
 def flush (s : DS) : IO DS := do
   match s.cur with
@@ -247,9 +291,31 @@ partial def loop (h : IO.FS.Stream) (s : DS) : IO Unit := do
     let _ ← flush s
     return ()
   let ws := (line.trimAscii.toString.splitOn " ").filter (· ≠ "")
+  if s.pool.isSome && (match ws with | op :: _ => ["G", "R", "X", "T", "S"].contains op | [] => false) then
+    match s.pool with
+    | some (max, ps) =>
+      let (out, ps') := poolOp max ps ws
+      IO.println out
+      loop h { s with pool := some (max, ps') }
+    | none => loop h s
+  else
   match ws with
+  | "C" :: "pool" :: _ =>
+    let s ← flush s
+    match (Drv.field ws "max").bind String.toNat?, (Drv.field ws "timeout").bind String.toNat? with
+    | some max, some t =>
+      if max > 0 && t > 0 then
+        IO.println "ok"
+        loop h { s with pool := some (max, {}), iomod := "" }
+      else
+        IO.println "bad-op"
+        loop h { s with pool := none }
+    | _, _ =>
+      IO.println "bad-op"
+      loop h { s with pool := none }
   | "C" :: iomod :: tls :: ep :: _ =>
     let s ← flush s
+    let s := { s with pool := none }
     if (iomod == "nb" || iomod == "bl" || iomod == "mx") && (tls == "0" || tls == "1") &&
         ["lt", "et", "os", "eta", "osa"].contains ep then
       IO.println "ok"
